@@ -164,6 +164,7 @@ func genContent(t *simkit.Tape, kind string) []byte {
 		cfg := model.DrawHTMLConfig(t)
 		cfg.Doctype = 0
 		cfg.Soup = false
+		cfg.Huge = 0
 		cfg.Colons = false
 		if cfg.MaxNodes > 25 {
 			cfg.MaxNodes = 25
